@@ -607,7 +607,14 @@ def r13_allow_list_entries_do_not_lend_each_other_ports(ctx):
     R.check(not tbl and not rec, "C14.R13", "ports-per-entry-host", "each entry contributes its port to its own host only", "WhitelistedHosts::from moves ports between hosts while it builds the allow-list (%s): a request can be admitted on a port that belongs to another entry" % sorted({short(c.name()) for c in tbl + rec}), where((tbl + rec)[0]) if tbl + rec else None)
 
 
-RULES = [r12_authority_comes_from_host_and_uri_only, r13_allow_list_entries_do_not_lend_each_other_ports, r11_request_headers_reach_the_filter_untouched, r10_header_value_is_taken_whole, r8_ports_registered_per_host, r9_port_numbers_are_parsed_as_u16, r1_gate, r2_port_table, r3_authority_table, r4_default_port, r5_one_parser_and_enabled_filter, r6_both_sides_spell_hosts_alike, r7_parser_fails_closed, rstatus_http_status_table]
+def r14_authorities_are_compared_field_by_field(ctx):
+    """`Host header and URI authority disagree -> 400` rests on `a1 == a2` of two Authority values, and the allow-list on
+    their Hash/Eq: both are the derived impls (= compare host with host and port with port of the *other* value)"""
+    from .common import derived_impls_stay_derived
+    derived_impls_stay_derived(ctx, "C14.R14", [("PartialEq for Authority", r"^<jsonrpsee_server::middleware::http::authority::Authority as std::cmp::PartialEq>::eq$"), ("Hash for Authority", r"^<jsonrpsee_server::middleware::http::authority::Authority as std::hash::Hash>::hash$"), ("PartialEq for Port", r"^<jsonrpsee_server::middleware::http::authority::Port as std::cmp::PartialEq>::eq$")])
+
+
+RULES = [r14_authorities_are_compared_field_by_field, r12_authority_comes_from_host_and_uri_only, r13_allow_list_entries_do_not_lend_each_other_ports, r11_request_headers_reach_the_filter_untouched, r10_header_value_is_taken_whole, r8_ports_registered_per_host, r9_port_numbers_are_parsed_as_u16, r1_gate, r2_port_table, r3_authority_table, r4_default_port, r5_one_parser_and_enabled_filter, r6_both_sides_spell_hosts_alike, r7_parser_fails_closed, rstatus_http_status_table]
 
 LEVEL_TEXT = (
     "The gate (who may reach the inner service) is decided by dominance for every path of HostFilter::call, and the three "
